@@ -312,6 +312,8 @@ def dlist_groups():
                          2: ('cstl_dlist_swap', 'swap on ring neighbourhoods of 0, 1, 2 and >= 3 nodes each: first and last node re-pointed at the new head, empty rings become self-linked heads, sizes and offsets exchanged')}.items():
         G.append(Group('dlist.step2.%s' % fn[11:], ['C12'], 'S', S, 'h_step2', sources=src, defines=['-DVF_STEP2=%d' % k], unwind=6, functions=[fn],
                        what=txt, covers=['end']))
+    G.append(Group('dlist.find_visit', ['C12'], 'P', S, 'h_find_visit', enforce='cstl_dlist_find_visit', sources=src, defines=['-DVF_G_find_visit'], unwind=3,
+                   what='one step of find: the visited element is compared with the probe (with the caller\'s private pointer) and becomes the result, stopping the walk, exactly when the comparison says equal'))
     G.append(Group('dlist.wrap', ['C12'], 'P', S, 'h_wrap', sources=src, defines=['-DVF_G_wrap'], replace=['__cstl_dlist_insert', '__cstl_dlist_erase'],
                    functions=['cstl_dlist_push_front', 'cstl_dlist_push_back', 'cstl_dlist_insert', 'cstl_dlist_erase', 'cstl_dlist_pop_front', 'cstl_dlist_pop_back', 'cstl_dlist_front', 'cstl_dlist_back'],
                    what='the loop-free public wrappers hand the ring primitives exactly the right neighbour and node (element/node conversion by the list\'s offset); pop/front/back of an empty list return NULL and touch nothing; any list size'))
